@@ -441,6 +441,18 @@ class _N(ast.NodeTransformer):
             return ast.copy_location(ast.If(test=v.test, body=[self.visit_Return(a)], orelse=[self.visit_Return(b)]), n)
         return n
 
+    def visit_AugAssign(self, n):
+        self.generic_visit(n)
+        # X |= {k: v ...}   ->   X.update({k: v ...})     (dict displays / comprehensions only: for dicts the in-place union IS update)
+        if isinstance(n.op, ast.BitOr) and isinstance(n.value, (ast.Dict, ast.DictComp)) and isinstance(n.target, (ast.Name, ast.Attribute)):
+            import copy
+            recv = copy.deepcopy(n.target)
+            recv.ctx = ast.Load()
+            e = ast.copy_location(ast.Expr(value=ast.copy_location(ast.Call(func=ast.Attribute(value=recv, attr="update", ctx=ast.Load()), args=[n.value], keywords=[]), n)), n)
+            ast.fix_missing_locations(e)
+            return self.visit_Expr(e)
+        return n
+
     def visit_Expr(self, n):
         self.generic_visit(n)
         # X.update({k: E for k in L})  ->  for k in L: X[k] = E
